@@ -89,6 +89,16 @@ def check(run):
         main_run.merge(sub)
     total = sum(totals)
     run.samples = [{"family": f[0], "cases": len(f[1])} for f in fams]
+    # how much of module Numbers was replayed (non-vacuity): literal keys, reference arguments, edge tokens, dialect spellings
+    nums = [c for f in fams if f[0] == "numbers" for c in f[1]]
+    ents = lambda c: (c["abs"]["P"]["vals"]["en"]).values()
+    run.notes["numbers"] = {"projects": len(nums),
+                            "literal_keys": sum(1 for c in nums if c["family"] == "numbers" for e in ents(c) if e.get("k") == "lit"),
+                            "reference_arguments": sum(1 for c in nums if c["family"] == "numbers" and "tgt" in c["abs"]["P"]["vals"]["en"] for e in ents(c)) - sum(1 for c in nums if c["family"] == "numbers" and "tgt" in c["abs"]["P"]["vals"]["en"]),
+                            "edge_tokens": sum(1 for c in nums if c["family"] == "numbers-edge"),
+                            "dialect_spellings": {c["abs"]["only"]: sum(1 for e in ents(c) if e.get("k") == "lit") for c in nums if c["family"] == "numbers-dialect"}}
+    if not run.notes["numbers"]["literal_keys"] or not run.notes["numbers"]["edge_tokens"]:
+        raise vp.ToolError("module Numbers produced no literals")
     run.notes["format_perm_plan"] = [[f, "identity" if s is None else "seeded permutation"] for f, s in plan]
     run.assumptions = ["every family is validated against the specification in every (format, key-order permutation) variant, so all variants denote the spec's outcome",
                        "repeated runs: one variant per family is executed twice in fresh processes and the two traces must be identical event by event",
